@@ -10,6 +10,7 @@ import gzip, json, os, random
 IUPAC = "ACGTNRYSWKMBDHVU"
 CODE = {c: i for i, c in enumerate(IUPAC)}
 COMP = {"A": "T", "C": "G", "G": "C", "T": "A"}
+NAME_POOL = ["HG002", "HG010", "CHM13", "S9", "S10", "mPanTro3", "a", "Z", "b1", "AAA", "yeast_7", "K12"]
 
 
 def revcomp(s):
@@ -95,6 +96,11 @@ def gen_set(rng, nsamples=None, ncontigs=None, clen=None, div=None, shape=None):
         if not contigs:
             contigs.append(("only", rand_seq(rng, 50)))
         samples.append((f"S{si:03d}", contigs))
+    if rng.random() < 0.35 and len(samples) <= len(NAME_POOL):
+        # sample names whose order in the input is NOT their sorted order (the pipeline sorts by sample name in
+        # places; file/priority order and name order then differ); the first sample stays the reference
+        names = rng.sample(NAME_POOL, len(samples))
+        samples = [(nm, cs) for nm, (_, cs) in zip(names, samples)]
     if shape == "many_short":
         extra = [(f"t{j}", rand_seq(rng, rng.randint(1, 7), "ACGTNRY")) for j in range(rng.choice([820, 1700]))]
         samples[-1] = (samples[-1][0], samples[-1][1] + extra)
